@@ -16,6 +16,7 @@ package main
 import (
 	"bufio"
 	"bytes"
+	"context"
 	"encoding/json"
 	"errors"
 	"fmt"
@@ -58,8 +59,58 @@ var proxyModes = []string{
 	"a new connection for every request",
 }
 
+// rtKinds (round 8b): what the upstream round tripper puts into res.Request. net/http documents Response.Request as
+// "the request that was sent to obtain this Response"; a RoundTripper must not modify the request it is given, so one
+// that has to add a header or a deadline sends a clone (req.Clone, req.WithContext) and http.Transport then reports
+// that clone; a hand-written one may leave the field nil.
+var rtKinds = []string{"the request it was given", "nil", "a clone (req.Clone(ctx))", "req.WithContext(another context)"}
+
+const (
+	rtSame = iota
+	rtNil
+	rtClone
+	rtWithContext
+)
+
+// rtPairs lists the round trippers of the rtreq family as (kind for plain exchanges, kind for API exchanges); the
+// pair (given, given) is the proxy family itself. quick: one class of exchanges differs, or both in the same way;
+// thorough: every pair.
+func rtPairs(tier string) [][2]int {
+	var out [][2]int
+	for a := range rtKinds {
+		for b := range rtKinds {
+			if a == rtSame && b == rtSame {
+				continue
+			}
+			if tier != "thorough" && a != b && a != rtSame && b != rtSame {
+				continue
+			}
+			out = append(out, [2]int{a, b})
+		}
+	}
+	return out
+}
+
+type rtCtxKey struct{}
+
+// answerFor sets res.Request the way a round tripper of the given kind does.
+func answerFor(kind int, req *http.Request, res *http.Response) *http.Response {
+	switch kind {
+	case rtSame:
+		res.Request = req
+	case rtNil:
+		res.Request = nil
+	case rtClone:
+		res.Request = req.Clone(req.Context())
+	case rtWithContext:
+		res.Request = req.WithContext(context.WithValue(req.Context(), rtCtxKey{}, "c13"))
+	}
+	return res
+}
+
 type proxyWorld struct {
 	tree  *scen.Node
+	rt    [2]int // rtKinds for plain exchanges and for API exchanges
 	p     *martian.Proxy
 	l     *simnet.Listener
 	mux   *http.ServeMux
@@ -77,24 +128,35 @@ type pconn struct {
 
 var errUpstream = errors.New("c13: upstream unreachable")
 
-func newProxyWorld(t *scen.Node) *proxyWorld {
-	w := &proxyWorld{tree: t, msgs: map[int]scen.Msg{}, rts: map[int]int{}}
+// proxyWirings (round 8b): where the configurable modifier sits. The proxy family uses the first one only.
+var proxyWirings = []string{
+	"as in cmd/proxy: inside the inner group of the httpspec stack",
+	"without the httpspec stack: top group = API forwarder behind the servemux filter + the configurable modifier",
+}
+
+func newProxyWorld(t *scen.Node, rt [2]int, bare bool) *proxyWorld {
+	w := &proxyWorld{tree: t, rt: rt, msgs: map[int]scen.Msg{}, rts: map[int]int{}}
 	p := martian.NewProxy()
 	p.SetRoundTripper(w)
 	p.SetDial(func(network, addr string) (net.Conn, error) { return nil, errUpstream })
 	mux := http.NewServeMux()
-	stack, fg := httpspec.NewStack("martian")
 	topg := fifo.NewGroup()
 	apif := servemux.NewFilter(mux)
 	apif.SetRequestModifier(mapi.NewForwarder("localhost", 8181))
 	topg.AddRequestModifier(apif)
-	topg.AddRequestModifier(stack)
-	topg.AddResponseModifier(stack)
+	m := martianhttp.NewModifier()
+	if bare {
+		topg.AddRequestModifier(m)
+		topg.AddResponseModifier(m)
+	} else {
+		stack, fg := httpspec.NewStack("martian")
+		topg.AddRequestModifier(stack)
+		topg.AddResponseModifier(stack)
+		fg.AddRequestModifier(m)
+		fg.AddResponseModifier(m)
+	}
 	p.SetRequestModifier(topg)
 	p.SetResponseModifier(topg)
-	m := martianhttp.NewModifier()
-	fg.AddRequestModifier(m)
-	fg.AddResponseModifier(m)
 	handle := func(pattern string, h http.Handler) {
 		mux.Handle(apiHost+pattern, h)
 		mux.Handle(apiBackend+pattern, h)
@@ -121,9 +183,8 @@ func (w *proxyWorld) RoundTrip(req *http.Request) (*http.Response, error) {
 		rec := httptest.NewRecorder()
 		w.mux.ServeHTTP(rec, req)
 		res := rec.Result()
-		res.Request = req
 		res.ContentLength = int64(rec.Body.Len())
-		return res, nil
+		return answerFor(w.rt[1], req, res), nil
 	}
 	id, _ := strconv.Atoi(req.URL.Query().Get("id"))
 	m, ok := w.msgs[id]
@@ -135,8 +196,7 @@ func (w *proxyWorld) RoundTrip(req *http.Request) (*http.Response, error) {
 		return nil, errUpstream
 	}
 	_, res := m.BuildFor(w.tree, id)
-	res.Request = req
-	return res, nil
+	return answerFor(w.rt[0], req, res), nil
 }
 
 func rawRequest(method, target, host string, hdr http.Header, body string) string {
@@ -295,19 +355,23 @@ func runProxyHistory(out *shardOut, j *treeJob, js []byte, seq []int, viaHTTP bo
 	hist := func(step int) []string { return histNames(j, seq[:min(step+1, len(seq))]) }
 	replay := func(upto int) interface{} {
 		n := min(upto+1, len(seq))
-		return map[string]interface{}{"part": "seq", "family": "proxy", "mode": j.Mode, "tree": j.Tree.String(), "config": string(js), "history": histNames(j, seq[:n]), "symbols": append([]int(nil), seq[:n]...), "final_query": upto >= len(seq)}
+		return map[string]interface{}{"part": "seq", "family": j.Family, "mode": j.Mode, "rt": j.RT, "bare": j.Bare, "tree": j.Tree.String(), "config": string(js), "history": histNames(j, seq[:n]), "symbols": append([]int(nil), seq[:n]...), "final_query": upto >= len(seq)}
 	}
 	violate := func(step int, sig string, desc func() string) {
 		n := min(step+1, len(seq))
 		out.violateSeq(rank+step, j.sigPrefix()+sig, func() (string, interface{}) {
-			return "through the proxy (" + proxyModes[j.Mode] + "): " + desc(), replay(step)
+			how := proxyModes[j.Mode]
+			if j.Family == "rtreq" {
+				how += "; wiring " + proxyWirings[map[bool]int{false: 0, true: 1}[j.Bare]] + "; the upstream round tripper returns responses whose Request is " + rtKinds[j.RT[0]] + " for plain exchanges and " + rtKinds[j.RT[1]] + " for exchanges addressed to the proxy's API"
+			}
+			return "through the proxy (" + how + "): " + desc(), replay(step)
 		}, j, seq[:n])
 	}
 	fail := -1
 	nontrivial := false
 	cur := 0
 	body := func() {
-		w := newProxyWorld(j.Tree)
+		w := newProxyWorld(j.Tree, j.RT, j.Bare)
 		// connection slots: traffic on 0; queries and resets on 0 or 1
 		qk := 0
 		if j.Mode == 1 {
